@@ -1,8 +1,92 @@
-(* Property C06 - proof of stake: weighted lottery, owner-only signing, locked funds, exact payout. *)
-From Virel Require Import Lib.Config Lib.U64 Lib.AMap Model.Ledger Model.Node Proofs.NodeBasics.
+(* Property C06 - proof of stake: weighted lottery, owner-only signing, locked funds, exact payout.
+   Statements only; proofs in Proofs/Staking.v. *)
+From Virel Require Import Lib.Config Lib.U64 Lib.AMap Model.Ledger Model.Node Proofs.Staking Proofs.NodeBasics.
 Open Scope N_scope.
 
-Theorem C06_rejected_unchanged : forall cfg genesis_addr team_key n b now n' c amb,
-  deliver cfg genesis_addr team_key n b now = (n', Rejected c, amb) -> n' = n.
-Proof. exact deliver_rejected_unchanged. Qed.
-Print Assumptions C06_rejected_unchanged.
+(* THE LOTTERY.  When the staked total S is the sum over all pools (invariant of C01) and positive, then for EVERY
+   128-bit lottery value hv the lottery selects a registered pool d, deterministically, and the coin index
+   idx = hv mod S lies in d's interval: above the cumulated stake of every earlier pool (in database order), at most
+   the cumulated stake including d.  The intervals of the pools partition 0..S, each of width [tot d]: every pool is
+   chosen for a share of index values equal to its stake, to within one unit at the two ends. *)
+Theorem C06_lottery_interval : forall l hv,
+  staked l = sum_tot (dlgs l) -> 0 < staked l -> staked l < two64 ->
+  exists pre k d post,
+    dlgs l = pre ++ (k, d) :: post /\ get_staker l hv = Ok (d_id d) /\
+    let idx := hv mod staked l in
+    idx <= sum_tot pre + tot d /\
+    (forall p1 kd p2, pre = p1 ++ kd :: p2 -> sum_tot p1 + tot (snd kd) < idx).
+Proof. exact get_staker_selects. Qed.
+Print Assumptions C06_lottery_interval.
+
+(* conversely, an index inside a pool's interval selects exactly that pool *)
+Theorem C06_lottery_interval_complete : forall pre k d post idx seen,
+  seen + sum_tot (pre ++ (k, d) :: post) < two64 ->
+  (pre <> [] -> seen + sum_tot pre < idx) ->
+  (forall p1 kd p2, pre = p1 ++ kd :: p2 -> seen + sum_tot p1 + tot (snd kd) < idx) ->
+  idx <= seen + sum_tot pre + tot d ->
+  walk_delegates (pre ++ (k, d) :: post) idx seen = Ok (Some d).
+Proof. exact walk_hits. Qed.
+Print Assumptions C06_lottery_interval_complete.
+
+(* a delegate with no stake never receives a staker reward *)
+Theorem C06_no_stake_no_reward : forall l bh o l',
+  apply_pos_reward l bh o = Ok l' ->
+  exists d t, get_dlg l (o_extra o) = Some d /\ d_funds d <> [] /\ total_amount d = Ok t /\ t <> 0.
+Proof. exact pos_reward_needs_stake. Qed.
+Print Assumptions C06_no_stake_no_reward.
+
+(* every staker reward sums exactly: the pool's total and the network-wide staked total grow by the reward *)
+Theorem C06_reward_exact : forall l bh o l',
+  apply_pos_reward l bh o = Ok l' ->
+  exists d d' t t',
+    get_dlg l (o_extra o) = Some d /\ total_amount d = Ok t /\
+    get_dlg l' (d_id d) = Some d' /\ total_amount d' = Ok t' /\
+    t' = wadd t (o_amt o) /\ staked l' = wadd (staked l) (o_amt o) /\
+    d_id d' = d_id d /\ d_owner d' = d_owner d.
+Proof. exact pos_reward_exact. Qed.
+Print Assumptions C06_reward_exact.
+
+(* ... split among the funds in proportion to their size: each fund f receives floor(floor(f*r/100)*99/total) *)
+Theorem C06_reward_shares : forall fs reward total added r,
+  pos_distribute fs reward total added = Ok r ->
+  fst r = map (fun f => mkfund (f_owner f) (wadd (f_amt f) (share f reward total)) (f_unlock f)) fs /\
+  snd r = fold_left (fun a f => wadd a (share f reward total)) fs added /\
+  Forall (fun f => f_amt f <= wadd (f_amt f) (share f reward total)) fs.
+Proof. exact pos_distribute_spec. Qed.
+Print Assumptions C06_reward_shares.
+
+(* staked coins leave a pool only by their owner, only at or after the unlock height, never more than the fund *)
+Theorem C06_lock_respected : forall l amt id signer top_h txid pu l',
+  apply_unstake l amt id signer top_h txid false pu = Ok l' ->
+  exists d f, get_dlg l id = Some d /\ find_fund (d_funds d) signer = Some f /\
+    f_owner f = signer /\ f_unlock f <= top_h /\ amt <= f_amt f.
+Proof. exact unstake_respects_lock. Qed.
+Print Assumptions C06_lock_respected.
+
+Theorem C06_stake_sets_lock : forall cfg l amt id pu signer top_h txid l',
+  apply_stake cfg l amt id pu signer top_h txid false = Ok l' ->
+  exists d d', get_dlg l id = Some d /\ get_dlg l' (d_id d) = Some d' /\
+    exists f, find_fund (d_funds d') signer = Some f /\ f_unlock f = wadd top_h (unlock_time cfg).
+Proof. exact stake_sets_lock. Qed.
+Print Assumptions C06_stake_sets_lock.
+
+(* a block validated as staked carries a signature by the entitled delegate's owner key over the block it names as
+   entitling it, the delegate is the one published by that block, and something is staked *)
+Theorem C06_staked_only_if_signed : forall cfg n b prev,
+  check_block cfg n b prev = Ok tt ->
+  (0 <? b_version b) = true -> (minidag_ancestors cfg <? b_height b) = true ->
+  exists old, get_block n (staked_hash b) = Some old /\ b_next_delegate_id old = b_delegate_id b /\
+    (b_sig_blank b = false ->
+       staked (ldg n) <> 0 /\
+       exists d, get_dlg (ldg n) (b_delegate_id b) = Some d /\ b_sig_key b = d_owner d /\ b_sig_key b <> 0 /\
+                 b_sig_msg b = staked_hash b).
+Proof. exact staked_block_signed. Qed.
+Print Assumptions C06_staked_only_if_signed.
+
+(* full weight in fork choice iff staked *)
+Theorem C06_weight : forall b c,
+  contribution b = Ok c ->
+  let full := b_diff b + b_diff b * (wmul 2 (N.of_nat (length (b_sides b)))) / 3 in
+  c = if (0 <? b_version b) && b_sig_blank b then full / 2 else full.
+Proof. exact contribution_weight. Qed.
+Print Assumptions C06_weight.
